@@ -9,6 +9,7 @@
 From Coq Require Import List NArith Bool.
 Import ListNotations.
 From GMQ Require Import Broker.gen.BrokerGen Data.Reframe Proofs.ReframeProofs.
+From GMQ Require Import Broker.Model Proofs.BrokerStream Proofs.ReframeBridge.
 Local Open Scope N_scope.
 
 (* what the translator read off SendContent *)
@@ -57,6 +58,19 @@ Theorem C13_recut_fuel_is_enough :
   forall maxp len f2, 0 < maxp -> (N.to_nat (len / maxp) <= f2)%nat -> recut_loop f2 maxp len = recut maxp len.
 Proof. exact recut_fuel_is_enough. Qed.
 Print Assumptions C13_recut_fuel_is_enough.
+
+(* the bridge to the broker model: the body frames of the model's content block are the stored frames of the message
+   (C13_block_has_announced_size in Props/C13.v); re-cut for any receiver they still carry the announced body-size, and
+   fit that receiver's frame-max *)
+Theorem C13_recut_block_keeps_announced_size :
+  forall s u m fmax, get_msg s u = Some m -> msg_complete m -> sumN (reframe fmax (m_body m)) = m_hsize m.
+Proof. exact recut_block_has_announced_size. Qed.
+Print Assumptions C13_recut_block_keeps_announced_size.
+
+Theorem C13_recut_block_within_frame_max :
+  forall s u m fmax, get_msg s u = Some m -> 8 < fmax -> Forall (fun n => wire_size n <= fmax) (reframe fmax (m_body m)).
+Proof. exact recut_block_within_frame_max. Qed.
+Print Assumptions C13_recut_block_within_frame_max.
 
 (* non-vacuity: the session the check replays on the real broker *)
 Example C13_reframe_example :
